@@ -1,4 +1,4 @@
-FIX_COMMITS = ["66c24f4", "e815a6e", "cc08809", "a93577e"]
+FIX_COMMITS = ["66c24f4", "e815a6e", "cc08809", "a93577e", "48453bf", "0b61eff", "751961f", "e3322e6", "5e939ce", "230107f", "e326e4b", "67c36ae"]
 NOTES = ("Static-analysis family only: every verdict is computed from /repo's current source (type-checked HIR + MIR via a rustc driver); "
          "nothing executes riscv-analysis. Properties are behavioural universals; each check decides named structural clauses that are "
          "necessary conditions (see DESIGN.md section 4) and says what it does not decide.")
@@ -13,6 +13,10 @@ CHECKS = {
           "DESIGN.md section 4 C02", "table agreement + who-may-call + operator identity"),
  "C03": C("Edge sets are mutated only in mirror pairs (13 call sites of 6 discovered mutators), only by CFG-generation passes, exits are exactly ecalls {10,93}, fall-through is suppressed exactly after ret/unconditional jumps. Does NOT decide that every dynamic transfer is an edge.",
           "DESIGN.md section 4 C03", "pairing + who-may-call + table rules over HIR/MIR"),
+ "C06": C("Crash clause only: every arithmetic assert (overflow, division, bounds), every call to a panicking std function (#[track_caller] items queried from the compiler plus a documented list), every explicit panic and every RefCell guard held across a conflicting borrow, in all MIR bodies reachable from the lint entry points (library and CLI, incl. --yaml/--debug paths via callback edges), is either discharged by a sound rule D0-D5, exempted with a one-line reason, or reported; plus no recursion cycle. Does NOT decide termination or the time bound of the fixed-point loops.",
+          "DESIGN.md section 3 G1, section 4 C06", "panic-site reachability + dominator-guard discharge + RefCell guard liveness on MIR"),
+ "C17": C("Literal handling cannot crash and never narrows: G1 restricted to Imm/CsrImm parsing and the lui shift, integer casts are same-width or widening, radix table 0x/0b/decimal. Does NOT decide the value read for every spelling nor the out-of-range rejection policy.",
+          "DESIGN.md section 4 C17", "panic-site discharge + cast-width rule + radix table"),
  "C08": C("Every row of the finite translation tables is examined on every run: operand-role table (30 rows), mnemonic tables (101 mnemonics x 5 tables), all 33 pseudo-instruction expansions and all operand forms of the 11 base formats are extracted by symbolic path enumeration of the decoder's HIR and compared with reference tables transcribed from the RISC-V assembly manual; folding operator table. Not decided: that each folding arm computes the right function beyond totality/operand extension.",
           "DESIGN.md section 4 C08", "table agreement by symbolic extraction from type-checked HIR + reference tables"),
  "C11": C("Membership pairing in mark_reachable, annotation ownership, function = call target (calls_to table, call_names construction, entry-insertion guard), single exit with paired rewiring, overlap trigger. Does NOT decide exactness of membership for all graphs.",
@@ -29,5 +33,5 @@ CHECKS = {
 NOT_APPLICABLE = {
  "C04": "precision over all convention-conforming programs is a universal over program behaviour and eleven lint conditions; no structural clause beyond tables decided under C14 and C02",
 }
-for p in ["C05","C06","C07","C09","C10","C15","C16","C17","C18"]:
+for p in ["C05","C07","C09","C10","C15","C16","C18"]:
     NOT_APPLICABLE[p] = TBD
